@@ -139,6 +139,10 @@ def run_into(res, prop, tier, scratch, binary):
             by_beh = {}
             for d in r["divergences"]:
                 by_beh.setdefault(d["beh"], []).append(d)
+            extra = [d for d in r["divergences"] if d["prop"].startswith("X-")]
+            if extra:
+                res.notes.append("beyond the listed properties (not a verdict): %d sessions in which %s" % (
+                    len({d["beh"] for d in extra}), extra[0]["msg"]))
             for beh, ds in by_beh.items():
                 mine = [d for d in ds if d["prop"] == prop]
                 if not mine:
